@@ -138,6 +138,7 @@ type Machine struct {
 	heldK map[string]bool
 	opaqueGlobals map[*Object]string
 	ErrWhere string
+	SpinID   string // when set, an unwinding failure is reported as a violation with this id (non-progress)
 }
 
 type ufEntry struct {
@@ -209,6 +210,11 @@ func (m *Machine) runPath(fn *ssa.Function, prefix []int) {
 			case *pathEnd:
 				switch x.reason {
 				case "unwind":
+					if m.SpinID != "" && m.Concrete == nil {
+						// the harness's inputs are finite: a loop that is still running at the bound makes no progress
+						m.reportSpin()
+						break
+					}
 					m.Stats.UnwindHits++
 				case "depth":
 					m.Stats.DepthHits++
@@ -278,6 +284,22 @@ func (m *Machine) reportPanic(x *goPanicSig) {
 	}
 	m.Sh.Mu.Lock()
 	m.Sh.Violations = append(m.Sh.Violations, Violation{Harness: m.Name, ID: id, Kind: "panic", Msg: x.msg, Where: x.where, Tags: m.copyTags(), Path: append([]int(nil), m.taken...), Stream: st})
+	m.Sh.Mu.Unlock()
+}
+
+func (m *Machine) reportSpin() {
+	id := m.SpinID
+	key := "spin:" + id + "|" + tagString(m.tags)
+	if !m.firstSeen(key) {
+		return
+	}
+	st := m.streamNow(nil)
+	if st == nil {
+		m.noteInconclusive(id)
+		return
+	}
+	m.Sh.Mu.Lock()
+	m.Sh.Violations = append(m.Sh.Violations, Violation{Harness: m.Name, ID: id, Kind: "spin", Msg: "loop still running at the unwinding bound (no progress on finite input)", Where: m.Where(), Tags: m.copyTags(), Path: append([]int(nil), m.taken...), Stream: st})
 	m.Sh.Mu.Unlock()
 }
 
